@@ -132,6 +132,12 @@ MUTATIONS = {
                  new="        type(self)._native_anim_max_bytes = type(self).__native_anim_max_bytes\n"),
         ],
     ),
+    # ---- F16 reverted: a falsy instance (class defines __len__ -> 0) is dispatched as the class ----
+    "c20-classinstancemethod-falsy-instance-as-class": dict(
+        file="utils.py",
+        old="        if instance is not None:\n            return self.f_instance.__get__(instance, owner)",
+        new="        if instance:\n            return self.f_instance.__get__(instance, owner)",
+    ),
     # ---- own ------------------------------------------------------------------------------
     "c20-instance-unset-writes-default": dict(
         file="image/common.py",
